@@ -72,7 +72,7 @@ def make_judges(ctx):
         for v in si.values:
             d = v - bi
             u = d / sc
-            if not (is_double(v) and is_double(d) and is_double(u)):
+            if not (is_double(v) and is_double(d) and is_double(u) and is_double(u * F(2) ** post.n_frac)):
                 ctx.skip('store:an intermediate is not an exact double')
                 return
             us.append(u)
